@@ -412,7 +412,7 @@ def run_conn_codec(ctx, d, msgs, tier):
                             "hex": hexs(c["stream"][o:o + 4 + n][:200]), "frames_on_connection": len(fl)})
     cov = {"scenarios": len(logs), "connections": len(conns), "frames": nframes, "frames_with_failed_clause": len(bad),
            "bytes": sum(len(c["stream"]) for c in conns), "frames_by_api_version": dict(sorted(per.items())),
-           "library_calls": sum(l["calls"] for l in logs), "library_calls_returning_an_error": sum(len(l["errs"]) for l in logs),
+           "library_calls": sum(l["calls"] for l in logs), "library_calls_returning_an_error": sum(l["nerr"] for l in logs),
            "advertised_maxima_per_scenario": "Produce 2..7, Fetch 2..10, Metadata 1..6, CreateTopics 0..2, DeleteTopics 0..1, JoinGroup 1..2, SaslHandshake 0..1 (lowest always 0)",
            "not_exercised": CONN_UNREACHABLE + ["%s v%d" % (apiname.get(k, k), v) for k, v in missing], "driver_runs": attempts,
            "violation_groups": viol_keys, "samples": samples}
